@@ -27,7 +27,8 @@ EXPLANATION = (
     'predicates and opposite signs; (5) bucket constants agree across probe, insert, setUsedSize, reSize and the tablebase region; '
     '(6) with the floor-halving loop lemma for setUsedSize (x*2^n <= s, x < 256) exact constant evaluation of getIndex at the '
     'extreme key for every (topBits in 128..255, shift in 2..40) shows idx+3 < topBits*2^shift <= usedSize.'
-    ' In probe a loaded record is written back or handed out only after the key decoded from that very load matched (typestate, not mere dominance).')
+    ' In probe a loaded record is written back or handed out only after the key decoded from that very load matched (typestate, not mere dominance).'
+    ' Added later; (9) in reSize tableSize is zeroed between the release of the buffer and every allocation that may throw.')
 UNDECIDED = ('torn-read freedom beyond "atomics + xor check are in place" (a memory-model argument); replacement-policy quality; '
              'tables below 512 entries (outside the property domain).')
 ASSUMPTIONS = ['table sizes >= 512 entries (property domain); usedSize <= 2^48 entries',
@@ -55,6 +56,7 @@ def run(fb, rep, tier):
     from . import C12
     C12.c1_typestate(fb, rep, clause='C08.7')
     c8_replace_decisions(fb, rep)
+    c9_resize_exception_safety(fb, rep)
 
 
 # ----------------------------------------------------------------------------- .1
@@ -810,3 +812,37 @@ def c8_replace_decisions(fb, rep):
         rep.ob(clause, 'K2 must-precede', 'insert: every comparison of the replaced entry\'s key with the new key is made before that key is overwritten', not late,
                R.site(f, se), 'comparisons reachable after setKey: %d (lines %s)' % (len(late), sorted({x[1].get('ln') for x in late if isinstance(x[1], dict)})), f.sname)
     rep.floor(clause, 'same-position tests on the local entry copy in insert', n_cmp, 2)
+
+
+# ----------------------------------------------------------------------------- .9
+
+def c9_resize_exception_safety(fb, rep):
+    """K3 class invariant at throw points.  Every access computes its slot from tableSize / usedSize and dereferences `table`;
+    the invariant is "table points to tableSize slots".  reSize() releases the old buffer before it allocates the new one,
+    and the allocation can throw (std::bad_alloc is caught by the caller, which retries with half the size).  So between the
+    release and every call that may throw, tableSize must already be 0 - otherwise a failed allocation leaves a null table
+    with the old size, the retry that reaches the old size returns early ("nothing to do"), and the next access is outside
+    any table."""
+    clause = 'C08.9'
+    f = fb.find1(TT + '::reSize')
+    if rep.need(clause, f, TT + '::reSize') is None:
+        return
+    rel = [(b, i, e) for b, i, e in f.events() if e.get('k') == 'asg' and ap(e.get('l')) == 'this.table' and
+           (lambda r: isinstance(r, dict) and (r.get('cv') == 0 or r.get('k') == 'nullptr' or 'nullptr' in show(r, 20)))(_strip(e.get('r')))]
+    rep.floor(clause, 'releases of the table pointer in reSize', len(rel), 1)
+    allocs = [(b, i, e) for b, i, e in f.events() if e.get('k') == 'call' and cname(e).split('::')[-1] in ('allocate', 'make_shared', 'make_unique')]
+    rep.floor(clause, 'allocations in reSize', len(allocs), 1)
+
+    def zero_size(e):
+        return e is not None and e.get('k') == 'asg' and ap(e.get('l')) == 'this.tableSize' and (_strip(e.get('r')) or {}).get('cv') == 0
+    for rb, ri, re_ in rel:
+        bad = []
+        for ab, ai, ae in allocs:
+            w = f.path_avoiding((rb, ri), lambda x, _a=ae: x is _a, zero_size)
+            if w is not None:
+                bad.append(show(ae, 50))
+        rep.ob(clause, 'K3 invariant at throw points', 'reSize: after the old buffer is released, tableSize is 0 before every allocation that may throw', not bad, R.site(f, re_),
+               'allocations reachable with the old size still recorded: %s' % bad, f.sname)
+    # and the early return compares with that recorded size
+    early = [bid for bid, blk in f.blocks.items() if (blk.get('term') or {}).get('c') == 'IfStmt' and 'tableSize' in show(eff_cond(blk['term']), 60) and '==' in show(eff_cond(blk['term']), 60)]
+    rep.ob(clause, 'K3 invariant at throw points', 'reSize has the "same size, nothing to do" early return that makes the recorded size matter', bool(early), f.where, '', f.sname)
